@@ -36,6 +36,7 @@ from hpstatic.terms import (sym, intern, show, subterms, calls_in, NONE, num, kw
                             is_num)
 from hpstatic.xrnorm import atom_rewrite
 from .c05 import subst
+from .common import lt_form
 from .common import is_sum
 
 MUTATION_TARGETS = {'holopy/scattering/theory/mielensfunctions.py': ['calculate_al_bl', 'riccati_psin', 'riccati_xin', 'calculate_pil_taul', '_eval', 'spherical_h2n'], 'holopy/scattering/theory/mie_f/miescatlib.py': ['scatcoeffs'], 'holopy/scattering/theory/mie_f/multilayer_sphere_lib.py': ['scatcoeffs_multi'], 'holopy/scattering/scatterer/sphere.py': ['r'], 'holopy/scattering/theory/mie.py': ['_scat_coeffs'], 'holopy/scattering/theory/mie_f/mie_specfuncs.py': ['Qratio'], 'holopy/scattering/theory/multisphere.py': ['_scsmfo_setup']}
@@ -85,6 +86,7 @@ def run(check, prog):
     qratio(check, prog)
     tolerance_slots(check, prog)
     cluster_handoff(check, prog)
+    cluster_order_cap(check, prog)
     # "at every detector point and polarization": the lens theories place the
     # Mie series relative to the polarisation direction (rule shared with C05)
     from . import c05
@@ -1017,3 +1019,77 @@ def qratio(check, prog, canon=None):
                   '(D3_n(z2)+n/z2)), n = 1..nstop (Yang eq. 33)', loc,
                   fail_detail='step = %s' % c0.show(intern(parts(step[4])))[:240]
                   if step[0] == 'upd' else show(step)[:120])
+
+
+def cluster_order_cap(check, prog):
+    """H7: the multi-sphere solver can hold the series of every sphere it accepts.
+
+    The compiled code dimensions its single-sphere expansions with the PARAMETER
+    `nod` (scfodim.for) and clamps the order it would need, `nstop = min(nstop,
+    nod)` in mie1, where nstop = nint(x + 4 x^(1/3)) + 5.  Its only warning is
+    printed under `if (suppress .eq. 0)`; Python passes suppress = 1 by default
+    and discards the returned per-sphere orders.  So the size guard on the Python
+    side is the only protection: it must not admit size parameters whose series
+    needs more than `nod` terms."""
+    import os
+    import re
+    fdir = os.path.join(prog.root, 'holopy/scattering/theory/mie_f')
+    try:
+        dim = open(os.path.join(fdir, 'scfodim.for')).read()
+        src = open(os.path.join(fdir, 'scsmfo_min.for')).read()
+    except OSError as e:
+        check.error('cannot read the multi-sphere Fortran sources: %s' % e)
+        return
+    m = re.search(r'\bnod\s*=\s*(\d+)', dim, re.I)
+    clamp = re.search(r'nstop\s*=\s*min\s*\(\s*nstop\s*,\s*nod\s*\)', src, re.I)
+    order = re.search(r'nstop\s*=\s*nint\s*\(\s*x\s*\+\s*4\.\s*\*\s*x\s*\*\*\s*\(\s*1\./3\.\s*\)\s*\)\s*\+\s*5', src, re.I)
+    if not m:
+        check.error('PARAMETER nod not found in scfodim.for')
+        return
+    nod = int(m.group(1))
+    q = TH + 'multisphere.Multisphere._scsmfo_setup'
+    fd = prog.func(q)
+    loc = prog.loc(q, fd)
+    it = Interp(prog, max_depth=1,
+                opaque=['holopy.scattering.scatterer.spherecluster.Spheres.__init__'])
+    res = it.analyze(q)
+    k = sym(fd.args.args[2].arg)
+    # the size guard: raise when r * k > LIMIT
+    limits = []
+    for o in res.raises:
+        for ct, pol in o.cond:
+            for x in subterms(ct):
+                f = lt_form(x) if x[0] == 'cmp' else None
+                if f and f[1][0] == 'num' and any(y == k for y in subterms(f[2])) and \
+                        any(y[0] == 'attr' and y[2] == 'r' for y in subterms(f[2])):
+                    limits.append(float(f[1][1]))
+    # does the routine look at the orders the solver reports?
+    am = [c for c in it.calls if c['name'].endswith('amncalc')]
+    if not limits or not am:
+        check.bad('H7-cluster-order-cap', 'Multisphere._scsmfo_setup',
+                  'no size guard of the form r * k > LIMIT / no amncalc call found', loc)
+        return
+    limit = min(limits)
+    if not clamp or not order:
+        # the Fortran no longer clamps (or computes the order differently): nothing
+        # to compare the guard with
+        check.ok('H7-cluster-order-cap', 'Multisphere._scsmfo_setup',
+                 'mie1 does not clamp the expansion order to nod', loc)
+        return
+    need = lambda x: round(x + 4. * x ** (1. / 3.)) + 5
+    # largest size parameter whose series fits
+    lo, hi = 0.0, 1e6
+    for _ in range(200):
+        mid = (lo + hi) / 2
+        if need(mid) <= nod:
+            lo = mid
+        else:
+            hi = mid
+    check.require(need(limit) <= nod, 'H7-cluster-order-cap',
+                  'Multisphere._scsmfo_setup size guard %g vs nod=%d' % (limit, nod),
+                  'every size parameter the guard admits (x <= %g) needs at most nod = %d '
+                  'terms' % (limit, nod), loc,
+                  fail_detail='spheres up to x = %g are accepted, but mie1 clamps the '
+                  'series at nod = %d terms, enough only for x <= %.1f (order needed at '
+                  'x = %g: %d); the clamp is silent (suppress = 1, returned orders '
+                  'discarded)' % (limit, nod, lo, limit, need(limit)))
